@@ -23,10 +23,10 @@ mut("c18-lookup-old", "C18", "nucleotide.go", "q[i] = new[j]", "q[i] = old[j]", 
 mut("c18-class-m", "C18", "nucleotide.go", 'b.WriteString("[acm]")', 'b.WriteString("[ack]")', ["CLASSES|gts.Match|query=m"])
 mut("c18-class-missing-case", "C18", "nucleotide.go", "\t\tcase 's':\n\t\t\tb.WriteString(\"[cgs]\")\n", "", ["CLASSES|gts.Match|query=s"])
 mut("c18-literal-unescaped", "C18", "nucleotide.go", "b.WriteString(regexp.QuoteMeta(string([]byte{c})))", "b.WriteByte(c)", ["LITERAL|gts.Match|dynamic-write"])
-mut("c18-fold-query", "C18", "nucleotide.go", "for _, c := range bytes.ToLower(query.Bytes()) {", "for _, c := range query.Bytes() {", ["FOLD|gts.Match|lower-query"])
+mut("c18-fold-query", "C18", "nucleotide.go", "for _, c := range lowerBytes(query.Bytes()) {", "for _, c := range query.Bytes() {", ["FOLD|gts.Match|lower-query"])
 mut("c18-lookup-one", "C18", "sequence.go", "return index.Lookup(sep, -1)", "return index.Lookup(sep, 1)", ["FOLD|gts.Search|all-hits"])
 mut("c18-search-unsorted", "C18", "sequence.go", "\tsort.Sort(BySegment(segments))\n\treturn segments\n}\n", "\t_ = sort.Sort\n\treturn segments\n}\n", ["FOLD|gts.Search|sorted"])
-mut("c18-search-fold-seq", "C18", "sequence.go", "s := bytes.ToLower(seq.Bytes())", "s := seq.Bytes()", ["FOLD|gts.Search|lower-seq"])
+mut("c18-search-fold-seq", "C18", "sequence.go", "s := lowerBytes(seq.Bytes())", "s := seq.Bytes()", ["FOLD|gts.Search|lower-seq"])
 mut("c18-silent-const", "C18", "nucleotide.go",
     'func Complement(seq Sequence) Sequence {\n\tp := replaceBytes(\n\t\tseq.Bytes(),\n\t\t[]byte("ACGTURYKMBDHVacgturykmbdhv"),',
     'const compFrom = "ACGTURYKMBDHVacgturykmbdhv"\n\nfunc Complement(seq Sequence) Sequence {\n\tp := replaceBytes(\n\t\tseq.Bytes(),\n\t\t[]byte(compFrom),',
@@ -737,6 +737,17 @@ mut("c16-rename-silent-layout-helper", "C16", "seqio/origin.go", "func toOriginL
 mut("c16-rename-layout-helper-and-break", "C16", "seqio/origin.go", "func toOriginLength(length int) int {", "func formattedLength(length int) int {\n\tlength++",
     ["LAYOUT"], old2="toOriginLength(length))", new2="formattedLength(length))", file3="seqio/genbank_subparsers.go", old3="toOriginLength(", new3="formattedLength(",
     note="the renamed anchor is still analysed: a changed layout formula under the new name is reported")
+
+# ---------------------------------------------------------------- FOLD-BYTEWISE (C18)
+mut("c18-fold-bytewise-search-seq-reverted", "C18", "sequence.go", "s := lowerBytes(seq.Bytes())", "s := bytes.ToLower(seq.Bytes())", ["FOLD-BYTEWISE|gts.Search|seq"], note="the repaired defect, reintroduced: a rune-wise fold shifts the offsets behind an invalid UTF-8 byte")
+mut("c18-fold-bytewise-search-query-reverted", "C18", "sequence.go", "sep := lowerBytes(query.Bytes())", "sep := bytes.ToLower(query.Bytes())", ["FOLD-BYTEWISE|gts.Search|query"])
+mut("c18-fold-bytewise-match-seq-reverted", "C18", "nucleotide.go", "p := lowerBytes(seq.Bytes())", "p := bytes.ToLower(seq.Bytes())", ["FOLD-BYTEWISE|gts.Match|seq"])
+mut("c18-fold-bytewise-match-query-upper", "C18", "nucleotide.go", "for _, c := range lowerBytes(query.Bytes()) {", "for _, c := range bytes.ToLower(query.Bytes()) {", ["FOLD-BYTEWISE|gts.Match|query"])
+mut("c18-fold-helper-misses-z", "C18", "nucleotide.go", "if 'A' <= c && c <= 'Z' {", "if 'A' <= c && c < 'Z' {", ["FOLD-BYTEWISE|gts.Search|seq", "FOLD-BYTEWISE|gts.Match|seq"], note="the per-byte map is evaluated for all 256 values: Z is not folded")
+mut("c18-fold-helper-folds-punctuation", "C18", "nucleotide.go", "if 'A' <= c && c <= 'Z' {\n\t\t\tc += 'a' - 'A'\n\t\t}", "if '@' <= c && c <= 'Z' {\n\t\t\tc |= 0x20\n\t\t}", ["FOLD-BYTEWISE|gts.Search|seq"], note="@ becomes a back quote: a byte outside the letters is changed")
+mut("c18-fold-helper-silent-or-bit", "C18", "nucleotide.go", "c += 'a' - 'A'", "c |= 0x20", silent=True, note="setting bit 5 of an upper-case ASCII letter is the same map")
+mut("c18-fold-helper-silent-index-loop", "C18", "nucleotide.go", "\tfor i, c := range p {\n\t\tif 'A' <= c && c <= 'Z' {\n\t\t\tc += 'a' - 'A'\n\t\t}\n\t\tq[i] = c\n\t}", "\tfor i := 0; i < len(p); i++ {\n\t\tc := p[i]\n\t\tif c >= 'A' && c <= 'Z' {\n\t\t\tc = c - 'A' + 'a'\n\t\t}\n\t\tq[i] = c\n\t}", silent=True, note="the same fold as a counted loop")
+mut("c18-fold-inline-silent", "C18", "sequence.go", "s := lowerBytes(seq.Bytes())", "raw := seq.Bytes()\n\ts := make([]byte, len(raw))\n\tfor i, c := range raw {\n\t\tif 'A' <= c && c <= 'Z' {\n\t\t\tc += 32\n\t\t}\n\t\ts[i] = c\n\t}", silent=True, note="the fold written out in Search itself")
 
 if __name__ == "__main__":
     here = os.path.dirname(os.path.abspath(__file__))
